@@ -4,8 +4,8 @@
 Require Extraction.
 Require Import ExtrOcamlBasic.
 From Coq Require Import ZArith QArith List String Bool.
-From Pandora Require Import Lib.Value Model.Json Model.JsonWire Model.Checker Model.Pipeline
-  Model.Save Model.SavedCfg Proofs.SavedCfgP Gen.Schemas Gen.SavePlan.
+From Pandora Require Import Lib.Value Model.Json Model.JsonWire Model.JsonText Model.Checker Model.Pipeline
+  Model.Save Model.SavedCfg Model.SavedFile Proofs.SavedCfgP Gen.Schemas Gen.SavePlan.
 Import ListNotations.
 Open Scope Z_scope.
 
@@ -76,7 +76,7 @@ Definition dispatch (fid : Z) (v : value) : value :=
   (* 3: (user left_img bands_left bands_right) -> check_conf *)
   | 3 => enc_odict (full_check gen_defs open_orc all_ok2 all_ok1 (bands_fn v) classes interpolation_methods
                                (dec_dict (vnth 0 v)))
-  (* 4: as 2, the code before fix e0eac6a (regression witness D8) *)
+  (* 4: as 2, the code before fix e44909e (regression witness D8) *)
   | 4 => enc_odict (main_saved_before gen_defs open_orc all_ok2 all_ok1 (bands_fn v) classes interpolation_methods
                                       (dec_jv (vnth 4 v)) (dec_dict (vnth 0 v)))
   (* 5: step name -> the indicator the run stores *)
@@ -86,6 +86,18 @@ Definition dispatch (fid : Z) (v : value) : value :=
   (* 7: (user left_img bands_left bands_right) -> the guard of the replay theorems *)
   | 7 => of_b (replay_guard gen_defs open_orc all_ok2 all_ok1 (bands_fn v) classes interpolation_methods
                             (dec_dict (vnth 0 v)))
+  (* 8: text (char codes) -> json.loads : (1 value) | (0) *)
+  | 8 => match parse (as_str v) with Some x => VL [VZ 1; enc_jv x] | None => VL [VZ 0] end
+  (* 9: value -> json.dumps without white space (char codes) *)
+  | 9 => of_str (print (dec_jv v))
+  (* 10: value -> is it in the JSON subset of Model/JsonText.v *)
+  | 10 => of_b (printable (dec_jv v))
+  (* 11: (text left_img bands_left bands_right margins) -> the text of cfg/config.json : (1 text) | (0) *)
+  | 11 => match main_file gen_defs open_orc all_ok2 all_ok1 (bands_fn v) classes interpolation_methods
+                          (dec_jv (vnth 4 v)) (as_str (vnth 0 v)) with
+          | Some t => VL [VZ 1; of_str t]
+          | None => VL [VZ 0]
+          end
   | _ => VL [VZ (-1)]
   end.
 
